@@ -17,6 +17,13 @@ var workloads = map[string]workload{}
 // recorded wrong behaviour is still observed.
 var witnesses = map[string]func() (bool, string){}
 
+// regressions: per property, witnesses of defects that were repaired in /repo
+// (known_findings.json "fixed"); run at the start of batch 0 of every run.
+var regressions = map[string][]string{
+	"C03": {"B35", "B35h"},
+	"C09": {"B35h", "B4"},
+}
+
 func main() {
 	flag.Parse()
 	if *fWitness != "" {
@@ -48,6 +55,15 @@ func main() {
 	}
 	c := newCtx()
 	c.emit("N", map[string]interface{}{"msg": "config", "detail": observedConfig()})
+	if c.Batch == 0 && c.Only < 0 && c.Start == 0 {
+		// witnesses of repaired defects of this property: they must stay repaired
+		for _, id := range regressions[c.Prop] {
+			if rep, what := witnesses[id](); rep {
+				c.Violate(-1, "regression", "the witness of the repaired defect "+id+" fails again", what)
+			}
+			c.Count("regression_witnesses_run", 1)
+		}
+	}
 	w(c)
 	c.Finish()
 }
@@ -57,7 +73,7 @@ func main() {
 // configuration with itself.
 func observedConfig() map[string]string {
 	m := map[string]string{}
-	for _, k := range []string{"SONIC_MODE", "SONIC_USE_OPTDEC", "SONIC_USE_FASTMAP", "SONIC_ENCODER_USE_VM", "SONIC_SYNC_GC", "GOGC", "GODEBUG", "VERIF_POINTS"} {
+	for _, k := range []string{"SONIC_MODE", "SONIC_USE_OPTDEC", "SONIC_USE_FASTMAP", "SONIC_ENCODER_USE_VM", "SONIC_SYNC_GC", "GOGC", "GODEBUG", "VERIF_POINTS", "VERIF_C10", "GOMAXPROCS"} {
 		if v := os.Getenv(k); v != "" {
 			m[k] = v
 		}
